@@ -21,6 +21,10 @@ type Corpus struct {
 	NonTrivial func(cs *Case, p *lg.Program) bool
 	// Extra is called for every decided case (additional monitors).
 	Extra func(c *vp.Child, cs *Case, p *lg.Program, id string)
+	// Transform may rewrite the generated program before it is rendered.
+	Transform func(p *lg.Program, r *rand.Rand)
+	// Variant, if set, changes how each case is executed.
+	Variant *Variant
 }
 
 // AfterCase, if set, is called after every decided case of Run and RunFixed
@@ -48,6 +52,9 @@ func (cp Corpus) Run(c *vp.Child) {
 			continue
 		}
 		p, r := GenProgram(c.Seed, cp.Salt, i, cp.Options)
+		if cp.Transform != nil {
+			cp.Transform(p, r)
+		}
 		styles := Styles(r, 4)
 		chosen := []int{0, 1, 2, 3}
 		if cp.NStyles < 4 {
@@ -62,7 +69,12 @@ func (cp Corpus) Run(c *vp.Child) {
 				args := ArgsFor(r, p.ArgKinds)
 				id := fmt.Sprintf("p%d/s%d/a%d", i, si, a)
 				c.Begin(id, "-- args: "+ArgsLua(args)+"\n"+text)
-				cs := Check(p, text, lines, args)
+				var cs *Case
+				if cp.Variant != nil {
+					cs = CheckVariant(p, text, lines, args, *cp.Variant)
+				} else {
+					cs = Check(p, text, lines, args)
+				}
 				c.Eval(1)
 				if cs.Skip != "" {
 					c.Inconclusive("reference: " + SkipClass(cs.Skip))
